@@ -83,6 +83,9 @@ fn cmd_replay(args: &[String]) -> i32 {
         let v: Value = serde_json::from_str(&u).expect("--unit json");
         units = vec![units::Unit { a: v["a"].as_f64().unwrap(), b: v["b"].as_f64().unwrap(), av: v["av"].as_f64().unwrap(), big: v["big"].as_f64().unwrap() }];
     }
+    if arg(args, "--unit").is_none() && matches!(prop.as_str(), "C04" | "C05" | "C06" | "C07" | "C08" | "C09" | "C10" | "C12" | "C17" | "C18") {
+        units.extend(units::warped_units(&tier));
+    }
     units.truncate(max_units);
     let lines = read_behaviours(&input);
     let lines: Vec<(u64, String)> = match only_line {
